@@ -116,7 +116,8 @@ def d3_appender_return(ctx, ap):
     rets = [n for n in own_nodes(ap.node) if isinstance(n, ast.Return) and n.value is not None]
     ok = bool(writes) and bool(rets)
     for r in rets:
-        recv = norm(writes[0].node.func.value) if writes else ''
+        from ..astutil import written_base
+        recv = norm(written_base(writes[0].node)[0]) if writes else ''
         ok = ok and norm(r.value) in (f'{recv}.shape[0]', f'len({recv})')
     ctx.decide(ok, 'R-FLOW', 'D3', ap, rets[0] if rets else None, 'returns-rows-written',
                f'{ap.qualname} returns the first extent of the array it wrote',
